@@ -17,8 +17,48 @@ def plans(tier):
             dict(gens="hole,collapse", variants="base", n=20000, W=5, nmax=16, bias=0.8, seed=s + 2)]
 
 
+def assemble_part(tier, drv, cov):
+    """Assemble.tla: the code's own assembly stage (dedupeInnersOuters + matchInnersToPolygons) transcribed; TLC enumerates loop
+    configurations (nested, touching, disjoint boxes) and shows the transcription right on the regular ones; every configuration
+    is replayed through the real functions, which must return what the transcription computes (AssembleTrace.tla)."""
+    import concurrent.futures
+    import json
+    cfg = "MC_Assemble_quick.cfg" if tier == "quick" else "MC_Assemble_thorough.cfg"
+    r = vlib.run_tlc("Assemble", cfg, timeout=7200, heap="8g", gc="parallel")
+    if not r.ok:
+        raise vlib.Broken("design model Assemble/%s fails: %s\n%s" % (cfg, r.violated or r.error, r.trace_text[:2000]))
+    if len(r.vecs) < 15000:
+        raise vlib.Broken("expected at least 15000 loop configurations from MC_Assemble, got %d" % len(r.vecs))
+    p = vlib.run([drv, "assemble-replay"], input="\n".join(json.dumps({"os": x["os"], "is": x["is"]}) for x in r.vecs) + "\n", timeout=1800)
+    if p.returncode != 0:
+        raise vlib.Broken("assemble-replay failed: " + p.stderr[-2000:])
+    lines = p.stdout.splitlines()
+    anomalies = []
+    states = 0
+    chunks = [lines[i::8] for i in range(8)]
+    with concurrent.futures.ThreadPoolExecutor(max_workers=8) as ex:
+        futs = [ex.submit(vlib.validate_records, "AssembleTrace", "AssembleTrace.cfg", "assemble_trace.ndjson", c, None, 2, 3600, 3,
+                          lambda inv, idx, line: anomalies.append((inv, line))) for c in chunks]
+        for f in futs:
+            states += f.result()[0]
+    cov["assemble_model"] = {"model": cfg, "states": r.distinct, "wall_s": round(r.wall, 1),
+                             "regular_inputs": sum(1 for x in r.vecs if x["regular"]),
+                             "double_wound_inputs": sum(1 for x in r.vecs if x["twice"]),
+                             "double_wound_with_wrong_coverage_or_hole": sum(1 for x in r.vecs if x["twice"] and not (x["cover_ok"] and x["holes_ok"]))}
+    cov["assemble_configurations_replayed"] = len(lines)
+    cov["assemble_anomalies"] = len(anomalies)
+    cov["states"] += r.distinct + states
+    cov["traces_validated_against_impl"] += len(lines)
+    return anomalies
+
+
 def run(tier):
     def post(v, drv, cov):
+        anomalies = assemble_part(tier, drv, cov)
+        if anomalies and not v.violations:
+            # the loop configurations are not shown reachable from a polygon: no verdict on C18 from them, but Assemble.tla does not describe this code
+            raise vlib.Broken("the real assembly stage differs from Assemble.tla on %d configuration(s), e.g. %s (%s): the design results "
+                              "do not transfer to this code, and no polygon-level failure was found" % (len(anomalies), anomalies[0][1][:400], anomalies[0][0]))
         st = cov["record_stats"]
         if not v.violations and st["atmosttwice_and_repeats"] < 50:   # (statistics are partial once a record has failed)
             raise vlib.Broken("vacuous: only %d (record, level) pairs are in the <=2-visit regime AND have a repeated centre" % st["atmosttwice_and_repeats"])
